@@ -540,8 +540,111 @@ theorem duplicate_service_names_merge_counterexample :
 
 end Examples
 
+/-! ## The emitted transformer (`leave_Call`) and the `add-iam-methods` rows -/
+
+section Aux
+
+theorem zipPairs_take {α β : Type} : ∀ (p : List α) (l : List β), zipPairs p (l.take p.length) = zipPairs p l
+  | [], l => by cases l <;> simp [zipPairs]
+  | _ :: _, [] => by simp [zipPairs]
+  | a :: p, b :: l => by simp [zipPairs, zipPairs_take p l]
+
+theorem zipPairs_swap_map {α β γ : Type} (f : α → γ) : ∀ (l : List α) (c : List β),
+    (zipPairs l c).map (fun x => (x.2, f x.1)) = zipPairs c (l.map f)
+  | [], c => by cases c <;> simp [zipPairs]
+  | _ :: _, [] => by simp [zipPairs]
+  | a :: l, b :: c => by simp [zipPairs, zipPairs_swap_map f l c]
+
+theorem dictGet_append (a b : List (Str × List Str)) (k : Str) :
+    dictGet (a ++ b) k = (dictGet b k).or (dictGet a k) := by
+  unfold dictGet
+  rw [List.reverse_append, List.find?_append]
+  cases List.find? (fun e => e.1 == k) b.reverse <;> simp
+
+end Aux
+
+/-- a method the table does not know is left alone -/
+theorem fixCall_unknown (tbl : List (Str × List Str)) (key : Str) (args : List Arg) (h : dictGet tbl key = none) :
+    fixCall tbl key args = .unchanged := by
+  simp [fixCall, h]
+
+/-- **An already fixed call is not fixed again**: any call carrying a `request=` keyword is unchanged;
+in particular the transformer is idempotent (its output starts with `request=`). -/
+theorem fixCall_already_fixed (tbl : List (Str × List Str)) (key : Str) (args : List Arg)
+    (h : ∃ a ∈ args, a.kw = some "request".toList) :
+    fixCall tbl key args = .unchanged := by
+  obtain ⟨a, ha, hk⟩ := h
+  unfold fixCall
+  split
+  · rfl
+  · rw [partition_eq_filter]
+    have : (args.filter (fun x => !(fun a : Arg => a.kw.isNone) x)).any (fun a => a.kw == some "request".toList) = true := by
+      rw [List.any_eq_true]
+      exact ⟨a, List.mem_filter.mpr ⟨ha, by simp [hk]⟩, by simp [hk]⟩
+    simp only [this, if_true]
+
+/-- **Positional arguments are bound to the table's names in order; surplus positional arguments become
+`retry`, `timeout`, `metadata` in that order.**  With `fixup_lists_request_fields` and `legacy_order`:
+positional argument `i` of an old-style call lands in request field `i` of "required first, then
+declaration order". -/
+theorem fixCall_positional (tbl : List (Str × List Str)) (key : Str) (params : List Str) (vals : List Nat)
+    (h : dictGet tbl key = some params) :
+    fixCall tbl key (vals.map fun v => ⟨none, v⟩) =
+      .rewritten (zipPairs params vals) (zipPairs ctrlParams (vals.drop params.length)) := by
+  have hf1 : (vals.map fun v => (⟨none, v⟩ : Arg)).filter (fun a => a.kw.isNone) = vals.map fun v => ⟨none, v⟩ := by
+    apply List.filter_eq_self.mpr; intro a ha; obtain ⟨v, _, rfl⟩ := List.mem_map.mp ha; rfl
+  have hf2 : (vals.map fun v => (⟨none, v⟩ : Arg)).filter (fun x => !(fun a : Arg => a.kw.isNone) x) = [] := by
+    apply List.filter_eq_nil_iff.mpr; intro a ha; obtain ⟨v, _, rfl⟩ := List.mem_map.mp ha; simp
+  unfold fixCall
+  simp only [h, partition_eq_filter, hf1, hf2, List.any_nil, Bool.false_eq_true, if_false, List.filter_nil,
+    List.append_nil, List.map_nil, List.nil_append]
+  congr 1
+  · rw [← List.map_take, List.map_map]
+    have : ((fun a : Arg => a.val) ∘ fun v => (⟨none, v⟩ : Arg)) = id := rfl
+    rw [this, List.map_id, zipPairs_take]
+  · rw [← List.map_drop, zipPairs_swap_map (fun a : Arg => a.val), List.map_map]
+    have : ((fun a : Arg => a.val) ∘ fun v => (⟨none, v⟩ : Arg)) = id := rfl
+    rw [this, List.map_id]
+
+/-- what the code does with KEYWORD arguments of an old-style call: `f(1, c=3)` for parameters (a, b, c)
+becomes `request={'a': 1, 'b': 3}` — the keyword's own name is dropped, the value is bound to the next
+free parameter.  (Outside C15's statement, which is about the table; reported as an observation.) -/
+theorem fixCall_keyword_renamed_counterexample :
+    fixCall [(['f'], [['a'], ['b'], ['c']])] ['f'] [⟨none, 1⟩, ⟨some ['c'], 3⟩] =
+      .rewritten [(['a'], 1), (['b'], 3)] [] := by decide
+
+example : fixCall [(['f'], [['a'], ['b']])] ['f'] ([1, 2, 3, 4].map fun v => ⟨none, v⟩) =
+    .rewritten [(['a'], 1), (['b'], 2)] [("retry".toList, 3), ("timeout".toList, 4)] := by decide
+
+example : fixCall [(['f'], [['a']])] ['f'] [⟨some "request".toList, 1⟩, ⟨some "retry".toList, 2⟩] = .unchanged := by decide
+
+/-- without the option the table is the RPC table -/
+theorem fixupTableOpt_off (api : Api) : fixupTableOpt api false = fixupTable api := by simp [fixupTableOpt]
+
+/-- **`add-iam-methods` rows**: the three legacy IAM methods are looked up with their fixed parameter
+lists (they come last in the dict literal, so they also win over an RPC row of the same key), and every
+other key is looked up as without the option. -/
+theorem fixupTableOpt_iam (api : Api) :
+    dictGet (fixupTableOpt api true) "get_iam_policy".toList = some ["resource".toList, "options".toList] ∧
+    dictGet (fixupTableOpt api true) "set_iam_policy".toList = some ["resource".toList, "policy".toList] ∧
+    dictGet (fixupTableOpt api true) "test_iam_permissions".toList = some ["resource".toList, "permissions".toList] ∧
+    ∀ k, dictGet iamRows k = none → dictGet (fixupTableOpt api true) k = dictGet (fixupTable api) k := by
+  simp only [fixupTableOpt, if_true, dictGet_append]
+  refine ⟨?_, ?_, ?_, ?_⟩
+  · have : dictGet iamRows "get_iam_policy".toList = some ["resource".toList, "options".toList] := by decide
+    rw [this]; rfl
+  · have : dictGet iamRows "set_iam_policy".toList = some ["resource".toList, "policy".toList] := by decide
+    rw [this]; rfl
+  · have : dictGet iamRows "test_iam_permissions".toList = some ["resource".toList, "permissions".toList] := by decide
+    rw [this]; rfl
+  · intro k hk; simp [hk]
+
 section Translated
 open GapicModel.PyRt
+
+/-- `toSnakeCase` IS the code's current `utils.to_snake_case` (translated by harness/pyfun2lean.py) -/
+theorem toSnakeCase_is_translated (s : List Char) :
+    GapicModel.Model.Metadata.toSnakeCase s = Pinned.Funcs.to_snake_case s := rfl
 
 /-- `makePrivate` IS the code's current `utils.make_private` (translated by harness/pyfun2lean.py, re-bridged on every run) -/
 theorem makePrivate_is_translated (s : List Char) :
